@@ -358,6 +358,24 @@ def check_signed_tests(ck, fn, tag):
     return n
 
 
+def check_partition_in(ck, tu):
+    """the C08 rules for whatever multisequence_partition / multisequence_selection instantiations a translation unit
+    contains (used by C07 and C06, whose exact splitting stands on the partition)"""
+    check_lexi(ck, tu)
+    fps, fss = tu.find(qname=PART), tu.find(qname=SEL)
+    n = 0
+    for fp in fps:
+        tag = "partition<%s>" % fp.targs[1]
+        check_index_guards(ck, fp, tag)
+        check_pq_and_edges(ck, fp, tag, True)
+        check_signed_tests(ck, fp, tag)
+        twins = [f for f in fss if f.targs[2] == fp.targs[1]]
+        if twins:
+            check_twins(ck, fp, twins[0])
+        n += 1
+    return n
+
+
 def run(ck):
     ck.explanation = (
         "The numeric refinement (halving, skew correction, returned ranks) is not decidable statically. Decided necessary conditions: the two "
